@@ -564,8 +564,17 @@ func (c *Ctx) phiTerm(v *ssa.Phi) *Term {
 func (c *Ctx) loadTerm(v *ssa.UnOp) *Term {
 	addr := c.term(v.X)
 	if root := allocRoot(v.X); root != nil && !c.detached {
-		if st := c.lastStore(v, addr.String()); st != nil {
+		if st := c.lastStore(v, addr.String(), root); st != nil {
 			return c.term(st.Val)
+		}
+		// field of a struct cell whose whole value was stored
+		if fa, ok := v.X.(*ssa.FieldAddr); ok {
+			if _, isAlloc := fa.X.(*ssa.Alloc); isAlloc {
+				if st := c.lastStore(v, c.term(fa.X).String(), root); st != nil {
+					stt := fa.X.Type().Underlying().(*types.Pointer).Elem().Underlying().(*types.Struct)
+					return mk("field", stt.Field(fa.Field).Name(), v, c.term(st.Val))
+				}
+			}
 		}
 	}
 	return mk("load", "", v, addr)
@@ -603,6 +612,18 @@ func (c *Ctx) varargs(sl *ssa.Slice, a *ssa.Alloc) *Term {
 	return mk("varargs", "", sl, elems...)
 }
 
+// loopStoresTo tells whether some store in the loop body writes (a part of) the cell.
+func loopStoresTo(l *Loop, root *ssa.Alloc) bool {
+	for b := range l.Body {
+		for _, in := range b.Instrs {
+			if st, ok := in.(*ssa.Store); ok && allocRoot(st.Addr) == root {
+				return true
+			}
+		}
+	}
+	return false
+}
+
 func allocRoot(v ssa.Value) *ssa.Alloc {
 	for {
 		switch x := v.(type) {
@@ -622,7 +643,7 @@ func allocRoot(v ssa.Value) *ssa.Alloc {
 // with the same rendering. Calls in between are assumed not to write the cell unless the
 // alloc escapes into a closure that is called (conservatively: give up on any intervening
 // call that receives the alloc or a closure capturing it).
-func (c *Ctx) lastStore(load *ssa.UnOp, addr string) *ssa.Store {
+func (c *Ctx) lastStore(load *ssa.UnOp, addr string, root *ssa.Alloc) *ssa.Store {
 	lb := load.Block()
 	bi, ok := c.pos[lb]
 	if !ok {
@@ -630,6 +651,14 @@ func (c *Ctx) lastStore(load *ssa.UnOp, addr string) *ssa.Store {
 	}
 	for i := bi; i >= 0; i-- {
 		b := c.seq[i]
+		// leaving (backwards) a loop that contains the load: a store of a previous iteration may
+		// be the latest one, unless no store in the loop body writes this cell.
+		if i < bi {
+			nb := c.seq[i+1]
+			if l := c.fi.header[nb]; l != nil && !l.Body[b] && loopStoresTo(l, root) {
+				return nil
+			}
+		}
 		instrs := b.Instrs
 		end := len(instrs)
 		if i == bi {
@@ -741,6 +770,10 @@ func contradicts(facts []Fact, f Fact) bool {
 			}
 			continue
 		}
+		if f.Pol && g.Pol && isConcreteAssertOK(f.Atom) && isConcreteAssertOK(g.Atom) &&
+			f.Atom.Args[0].Args[0].String() == g.Atom.Args[0].Args[0].String() && f.Atom.Args[0].Name != g.Atom.Args[0].Name {
+			return true // a value has one dynamic type
+		}
 		if f.Pol && g.Pol && f.Atom.Op == "eq" && g.Atom.Op == "eq" {
 			fx, fc := splitEqConst(f.Atom)
 			gx, gc := splitEqConst(g.Atom)
@@ -750,6 +783,19 @@ func contradicts(facts []Fact, f Fact) bool {
 		}
 	}
 	return false
+}
+
+// isConcreteAssertOK matches the ok result of a comma-ok type assertion to a concrete type.
+func isConcreteAssertOK(t *Term) bool {
+	if t.Op != "extract" || t.Name != "#1" || t.Args[0].Op != "typeassert" {
+		return false
+	}
+	ta, ok := t.Args[0].Val.(*ssa.TypeAssert)
+	if !ok {
+		return false
+	}
+	_, isIface := ta.AssertedType.Underlying().(*types.Interface)
+	return !isIface
 }
 
 func splitEqConst(t *Term) (x, c *Term) {
